@@ -2,6 +2,11 @@ import Mouette.Model.Prepare
 import Mouette.Generated.C02Tables
 import Mouette.Lemmas.C02Prepare
 import Mouette.Lemmas.C02Rewrap
+import Mouette.Lemmas.C02Witness
+import Mouette.Lemmas.C02StepsLemmas
+import Mouette.Lemmas.C02Rows
+import Mouette.Generated.C02Structure
+import Mouette.Model.DriveC02
 /-
 C02 — mesh construction normalises raw data, whatever its form.
 Theorems about the executable model `Mouette.Prepare` (which follows mouette/mesh/mesh_data.py after the
@@ -10,6 +15,7 @@ from the source on every run (`Mouette.Generated.C02`).
 -/
 namespace Mouette.Props.C02
 open Mouette.Prepare Mouette.Generated.C02
+open Mouette.Generated
 
 /-! ## translated fragments: the cell-face tables as the source spells them -/
 
@@ -44,6 +50,106 @@ theorem hex_faces_cover_each_edge_twice :
 /-- (observation, not demanded by the statement) the hexahedron quads are *not* consistently oriented:
 side 0→1 is used in the same direction by two faces -/
 theorem hex_faces_not_consistently_oriented : (completeHex.flatMap dirSides).count (0, 1) = 2 := by decide
+
+/-! ## translated fragments: the control skeleton of the construction code (round 2)
+
+`Mouette.Generated.C02S` is rewritten from the source on every run (vlib/props/c02_structure.py). Each bridge says:
+the model is the interpretation (`Lemmas/C02Steps`) of exactly what the source says. A reordered step, a dropped or
+moved guard, another comparison operator or bound, swapped append arguments, a class chosen before `prepare()` …
+change the Generated term and the bridge no longer compiles. -/
+
+/-- the step program of `RawMeshData.prepare` as written in the source is the normal form: `_prepared` guard first;
+faces-from-cells under `config.complete_faces_from_cells`, then edges-from-faces under
+`config.complete_edges_from_faces`, then vertices, edges, faces, face corners, cells, cell corners, cell faces,
+then `_compute_dimensionality`, then `_prepared = True` -/
+theorem prepare_program_bridge : C02S.prepareProgram = expectedPrepareProgram := by decide
+
+/-- the model's `prepare` runs the steps the source lists, in the source's order, under the source's guards -/
+theorem prepare_follows_source_structure (cfg : Cfg) (r : Raw) :
+    prepare cfg r = runProgram cfg C02S.prepareProgram r := by
+  rw [prepare_program_bridge]; exact prepare_eq_runProgram cfg r
+
+/-- order facts read off the source program (consequences, stated for the record): face completion precedes edge
+completion, both precede every per-container step, the dimensionality is computed after them, the flag is set last -/
+theorem prepare_program_order :
+    C02S.prepareProgram.guardFirst = true ∧
+    C02S.prepareProgram.steps.idxOf (Guard.ifCF, Step.completeFaces) = 0 ∧
+    C02S.prepareProgram.steps.idxOf (Guard.ifCE, Step.completeEdges) = 1 ∧
+    C02S.prepareProgram.steps.idxOf (Guard.always, Step.prepareEdges) = 3 ∧
+    C02S.prepareProgram.steps.idxOf (Guard.always, Step.computeDim) = 9 ∧
+    C02S.prepareProgram.steps.getLast? = some (Guard.always, Step.setPrepared) := by decide
+
+/-- the validity predicate of `_prepare_edges` as written (`a!=b and 0<=a<N and 0<=b<N`, `N = len(self.vertices)`)
+is the model's `validE` -/
+theorem is_valid_bridge (n : Nat) (e : Int × Int) : C02S.isValid e.1 e.2 n = validE n e := by
+  rw [Bool.eq_iff_iff, validE_iff]
+  simp only [C02S.isValid, Bool.and_eq_true, decide_eq_true_eq]
+  omega
+
+/-- `_complete_edges_from_faces` as written (return first on empty faces; `if not has_attribute("hard_edges")`;
+flags set on the edges present before completion) is the model's `completeEdges` -/
+theorem hard_edges_guard_bridge (r : Raw) :
+    completeEdges r = completeEdgesWith C02S.hardGuard C02S.hardAttrName C02S.hardFlagsBeforeCompletion
+      C02S.emptyFacesReturnFirst r := by
+  have h : C02S.hardGuard = HardGuard.ifAbsent ∧ C02S.hardAttrName = hardName ∧
+      C02S.hardFlagsBeforeCompletion = true ∧ C02S.emptyFacesReturnFirst = true := by decide
+  rw [h.1, h.2.1, h.2.2.1, h.2.2.2]; exact completeEdges_eq_with r
+
+/-- `face_corners.append(v, iF)`, `cell_corners.append(v, iC)` with `append(val_elem, val_adj)` routed to
+`_elem`, `_adj` fill (vertices in element order, owners); `_generate_cell_faces` appends the face id to `_elem`
+and the cell index to `_adj` -/
+theorem corner_append_bridge (rows : List (List Nat)) :
+    cornerLists C02S.faceCornerArgs C02S.cornerAppendSlots rows = (rows.flatten, owners rows) ∧
+    cornerLists C02S.cellCornerArgs C02S.cornerAppendSlots rows = (rows.flatten, owners rows) ∧
+    C02S.cellFaceElemArg = CellFaceArg.faceId ∧ C02S.cellFaceAdjArg = CellFaceArg.cellIndex := by
+  have h : C02S.faceCornerArgs = [.vertex, .owner] ∧ C02S.cellCornerArgs = [.vertex, .owner] ∧
+      C02S.cornerAppendSlots = [.elem, .adj] := by decide
+  rw [h.1, h.2.1, h.2.2]
+  exact ⟨cornerLists_expected rows, cornerLists_expected rows, by decide, by decide⟩
+
+/-- … and that is what the model's corner generation stores -/
+theorem corner_generation_uses_append_order (r : Raw) (hf : r.fcElem = []) (hc : r.ccElem = []) :
+    ((genFaceCorners r).fcElem, (genFaceCorners r).fcAdj)
+      = cornerLists C02S.faceCornerArgs C02S.cornerAppendSlots r.faces ∧
+    ((genCellCorners r).ccElem, (genCellCorners r).ccAdj)
+      = cornerLists C02S.cellCornerArgs C02S.cornerAppendSlots r.cells := by
+  rw [(corner_append_bridge r.faces).1, (corner_append_bridge r.cells).2.1]
+  have a := gfc_regen r hf
+  have b := gcc_regen r hc
+  exact ⟨by rw [a.1, a.2], by rw [b.1, b.2]⟩
+
+/-- the if/elif chain of `_compute_dimensionality` as written computes the model's `dimensionality` -/
+theorem dimensionality_bridge (r : Raw) : dimensionality r = dimBy C02S.dimChain C02S.dimDefault r := by
+  have h : C02S.dimChain = [("cells", 3), ("faces", 2), ("edges", 1)] ∧ C02S.dimDefault = 0 := by decide
+  rw [h.1, h.2]; exact dimensionality_eq_dimBy r
+
+/-- `_instanciate_raw_mesh_data` as written — `prepare()` BEFORE `dimensionality` is read, `None → -1`,
+`max(dim, dimensionality)`, dispatch — is the model's `instantiate`: the class is chosen on the prepared data
+(after invalid edges were filtered and elements completed) -/
+theorem instantiate_follows_source_structure (cfg : Cfg) (r : Raw) (dim : Option Nat) :
+    instantiate cfg r dim = instantiateWith cfg C02S.instProgram r dim := by
+  have h : C02S.instProgram = [.prepare, .defaultDim (-1), .combineMax, .dispatch] := by decide
+  rw [h]; exact instantiate_eq_with cfg r dim
+
+/-- the class returned per value, as written, and the class names the driver prints -/
+theorem class_table_bridge :
+    C02S.classTable = expectedClassTable ∧
+    ∀ k : Nat, k ≤ 3 → C02S.classTable.lookup (Int.ofNat k) = some (Mouette.DriveC02.className k) := by decide
+
+/-- `Mesh.__init__` as written (`dim>0`: edges; `dim>1`: faces, face_corners; `dim>2`: cells, cell_corners,
+cell_faces) decides which containers a re-wrap `RawMeshData(mesh)` carries over -/
+theorem mesh_init_bridge : C02S.meshInitTable = expectedMeshInitTable := by decide
+
+theorem rewrap_follows_mesh_init (b : Built) :
+    (rewrap b).edges = (if visible C02S.meshInitTable b.dim "edges" then b.raw.edges else []) ∧
+    (rewrap b).faces = (if visible C02S.meshInitTable b.dim "faces" then b.raw.faces else []) ∧
+    (rewrap b).fcElem = (if visible C02S.meshInitTable b.dim "face_corners" then b.raw.fcElem else []) ∧
+    (rewrap b).cells = (if visible C02S.meshInitTable b.dim "cells" then b.raw.cells else []) ∧
+    (rewrap b).ccElem = (if visible C02S.meshInitTable b.dim "cell_corners" then b.raw.ccElem else []) ∧
+    (rewrap b).cfElem = (if visible C02S.meshInitTable b.dim "cell_faces" then b.raw.cfElem else []) := by
+  rw [mesh_init_bridge]
+  obtain ⟨a, _, c, d, _, f, g, _, i, _⟩ := rewrap_visible b
+  exact ⟨a, c, d, f, g, i⟩
 
 /-! ## prepare: vertices -/
 
@@ -147,19 +253,15 @@ theorem faces_per_cell (c : List Nat) :
     match c, h with
     | [a, b, c, d, e, f, g, i], _ => simp [cellFacesC, pick, hexFaces]
 
-/-- construction never fails when face completion is on (cells being tetrahedra / hexahedra): every face
-looked up by `_generate_cell_faces` has been stored by `_complete_faces_from_cells` -/
-theorem prepare_cf_on_never_fails (cfg : Cfg) (r : Raw) (hcf : cfg.cf = true)
+/-- construction never fails (cells being tetrahedra / hexahedra), whatever the completion switches: a face of
+a cell that is not stored has no cell-face record (repaired code: `face_id.get(key) is None: continue`) -/
+theorem prepare_never_fails (cfg : Cfg) (r : Raw)
     (ha : ∀ c ∈ r.cells, c.length = 4 ∨ c.length = 8) : ∃ p, prepare cfg r = .ok p := by
   unfold prepare
   by_cases hp : r.prepared = true
   · exact ⟨r, by simp [hp]⟩
   · simp only [hp, Bool.false_eq_true, if_false]
-    have hk : ∀ c ∈ r.cells, ∀ f ∈ cellFacesC c, keyF f ∈ (facesAfter cfg r).map keyF := by
-      intro c hc f hf
-      unfold facesAfter; rw [if_pos hcf]
-      exact completeBy_complete keyF _ _ f (List.mem_flatMap.mpr ⟨c, hc, hf⟩)
-    obtain ⟨idss, hids⟩ := cellFaceIds_total ((facesAfter cfg r).map keyF) r.cells ha hk
+    obtain ⟨idss, hids⟩ := cellFaceIds_total ((facesAfter cfg r).map keyF) r.cells ha
     have : ∃ q, genCellFaces (stages cfg r) = .ok q := by
       unfold genCellFaces
       split
@@ -168,11 +270,21 @@ theorem prepare_cf_on_never_fails (cfg : Cfg) (r : Raw) (hcf : cfg.cf = true)
     obtain ⟨q, hq⟩ := this
     rw [hq]; exact ⟨_, rfl⟩
 
-/-- OPEN FINDING C02/raises/cf-off/cell-faces, on the witness: with face completion off a single
-tetrahedron makes `prepare` fail with KeyError (model and code agree on this; see known_findings.d) -/
-theorem prepare_cf_off_fails_witness :
-    errOf (prepare { ce := true, cf := false } { verts := [[0,0,0],[1,0,0],[0,1,0],[0,0,1]], cells := [[0,1,2,3]] })
-      = some "err:Key" := by decide
+/-- (kept from round 1; now a corollary) -/
+theorem prepare_cf_on_never_fails (cfg : Cfg) (r : Raw) (_hcf : cfg.cf = true)
+    (ha : ∀ c ∈ r.cells, c.length = 4 ∨ c.length = 8) : ∃ p, prepare cfg r = .ok p :=
+  prepare_never_fails cfg r ha
+
+/-- FIXED FINDING C02/raises/cf-off/cell-faces, on its witness: with face completion off a single tetrahedron
+now builds; there is no stored face, hence no cell-face record; with the bottom face declared there is exactly
+one record, owned by cell 0 -/
+theorem prepare_cf_off_witness :
+    (okOf (prepare { ce := true, cf := false }
+        { verts := [[0,0,0],[1,0,0],[0,1,0],[0,0,1]], cells := [[0,1,2,3]] })).map
+      (fun p => (p.faces, p.cfElem, p.cfAdj, p.prepared)) = some ([], [], [], true) ∧
+    (okOf (prepare { ce := true, cf := false }
+        { verts := [[0,0,0],[1,0,0],[0,1,0],[0,0,1]], faces := [[2,1,0]], cells := [[0,1,2,3]] })).map
+      (fun p => (p.faces, p.cfElem, p.cfAdj)) = some ([[2,1,0]], [0], [0]) := by decide
 
 /-! ## prepare: corner records -/
 
@@ -200,9 +312,10 @@ theorem corner_records (cfg : Cfg) (r p : Raw) (h0 : r.prepared = false) (h : pr
   simp only [gfc_cells, pe_cells, pv_cells, completed_cells] at b
   exact ⟨a.1, a.2, b.1, b.2⟩
 
-/-- cell-face records of a freshly built mesh: cell after cell, for each face of the cell's table in table
-order one record pointing to a stored face with that vertex set; the owner list is `owners` of the records
-(4 per tetrahedron, 6 per hexahedron), so every record carries its cell -/
+/-- cell-face records of a freshly built mesh, whatever the switches: cell after cell, the records of a cell
+are `idsOf` of its table faces, i.e. (`cell_face_records_meaning`) going through the table in order every face
+whose vertex set is stored gets exactly one record pointing to such a stored face, a face that is not stored
+gets none; the owner list is `owners` of the records, so every record carries its cell -/
 theorem cell_face_records (cfg : Cfg) (r p : Raw) (h0 : r.prepared = false) (h : prepare cfg r = .ok p)
     (hcf : r.cfElem = []) :
     ∃ idss : List (List Nat), p.cfElem = idss.flatten ∧ p.cfAdj = owners idss ∧
@@ -216,6 +329,36 @@ theorem cell_face_records (cfg : Cfg) (r p : Raw) (h0 : r.prepared = false) (h :
   refine ⟨idss, e1, e2, ?_⟩
   simp only [hqf, hqc]
   exact cellFaceIds_ok _ _ _ hi
+
+/-- one record per cell-face incidence: exactly the stored faces of the table get a record, in table order -/
+theorem cell_face_records_meaning (keys fs : List (List Nat)) : RecordsOf keys fs (idsOf keys fs) :=
+  idsOf_records keys fs
+
+/-- with face completion on every face of every cell is stored, so each cell has one record per face of its
+table, pointwise (4 per tetrahedron, 6 per hexahedron) -/
+theorem cell_face_records_complete (cfg : Cfg) (r p : Raw) (h0 : r.prepared = false)
+    (h : prepare cfg r = .ok p) (hcf : cfg.cf = true) (c : List Nat) (hc : c ∈ p.cells) :
+    PointsTo (p.faces.map keyF) (cellFacesC c) (idsOf (p.faces.map keyF) (cellFacesC c)) ∧
+    (c.length = 4 → (idsOf (p.faces.map keyF) (cellFacesC c)).length = 4) ∧
+    (c.length = 8 → (idsOf (p.faces.map keyF) (cellFacesC c)).length = 6) := by
+  obtain ⟨_, _, hf, hcells, _⟩ := prepare_fields cfg r p h0 h
+  have hk : ∀ f ∈ cellFacesC c, keyF f ∈ p.faces.map keyF := by
+    intro f hfm
+    rw [hf]; unfold facesAfter; rw [if_pos hcf]
+    exact completeBy_complete keyF _ _ f (List.mem_flatMap.mpr ⟨c, hcells ▸ hc, hfm⟩)
+  have hp := idsOf_complete _ _ hk
+  have hlen : ∀ (fs : List (List Nat)) (ids : List Nat), PointsTo (p.faces.map keyF) fs ids → ids.length = fs.length := by
+    intro fs
+    induction fs with
+    | nil => intro ids h; cases ids with | nil => rfl | cons _ _ => exact absurd h (by simp [PointsTo])
+    | cons f fs ih =>
+      intro ids h
+      cases ids with
+      | nil => exact absurd h (by simp [PointsTo])
+      | cons i ids => simp [ih ids h.2]
+  refine ⟨hp, ?_, ?_⟩
+  · intro h4; rw [hlen _ _ hp]; exact ((faces_per_cell c).1 h4).1
+  · intro h8; rw [hlen _ _ hp]; exact ((faces_per_cell c).2 h8).1
 
 /-! ## class -/
 
@@ -419,5 +562,37 @@ example : (demoOut.map (fun p => p.eattrs.map (fun a => (a.name, a.read 0, a.has
     some [("w", 10, true), ("s", 5, false), ("hard_edges", 1, false)] := by decide
 example : ∀ s ∈ (facesAfter {} demo).flatMap faceSides, validE demo.verts.length s = true := by decide
 example : (demoOut.bind (fun p => match prepare {} (rewrap ⟨3, p⟩) with | .ok q => some (q.edges == p.edges && q.eattrs == p.eattrs && q.cfElem == p.cfElem) | _ => none)) = some true := by decide
+
+
+/-! ## no later behaviour depends on the container type of the index rows (round 2)
+
+`Row β` = a value tagged `list | tuple | nparray`; `RawR` = raw data with tagged edge / face / cell rows; `prepareR` =
+`prepare()` over tagged rows (keyify gives tuples, `_prepare_faces` / `_prepare_cells` turn numpy rows into lists);
+`forget` drops the tags. The driver prints the tags `prepareR` predicts for every stored row and the harness compares
+them with `type(row)` of the real containers for the three input container types (section `K:` of the reply). -/
+
+/-- `prepare` commutes with forgetting the constructor: the containers computed from tagged rows are, tags dropped,
+the containers the untagged model computes from the untagged input (same error otherwise) -/
+theorem prepare_commutes_with_forgetting_row_type (cfg : Cfg) (x : RawR) :
+    forgetE (prepareR cfg x) = prepare cfg (forget x) := forget_prepareR cfg x
+
+/-- the answers depend only on the index VALUES: two raw inputs whose rows hold the same values in whatever container
+types give the same error or the same containers up to container types -/
+theorem prepare_depends_on_row_values_only (cfg : Cfg) (x y : RawR) (h : forget x = forget y) :
+    forgetE (prepareR cfg x) = forgetE (prepareR cfg y) := prepareR_values_only cfg x y h
+
+/-- and the container types left behind are harmless: after `prepare` every stored edge is a tuple and no stored
+face or cell row is a numpy row (the later code concatenates rows with `+`, which is what differed for numpy rows) -/
+theorem prepared_rows_are_lists_or_tuples (cfg : Cfg) (x y : RawR) (h0 : x.prepared = false)
+    (h : prepareR cfg x = .ok y) :
+    (∀ e ∈ y.edges, e.isTuple = true) ∧ (∀ f ∈ y.faces, f.isNumpy = false) ∧ (∀ c ∈ y.cells, c.isNumpy = false) :=
+  prepareR_no_numpy_rows cfg x y h0 h
+
+/-- non-vacuity: a numpy tetrahedron and a numpy declared edge -/
+example :
+    (match prepareR {} { verts := [[0,0,0],[1,0,0],[0,1,0],[0,0,1]], edges := [.nparray (3, 0)],
+                         cells := [.nparray [0,1,2,3]] } with
+      | .ok y => (y.edges.head?, y.cells, y.faces.length)
+      | .error _ => (none, [], 0)) = (some (.tuple (0, 3)), [.list [0,1,2,3]], 4) := by decide
 
 end Mouette.Props.C02
